@@ -35,6 +35,7 @@ struct RunState {
     std::map<long, std::set<int>> kernelIndexWorkers;
     int maxThreadsSeen = 0;
     std::set<std::string> kindPairsInverted, kindPairsNested;
+    bool countersEachCall = false;
     explicit RunState(Ctx& c, const Scenario& s) : ctx(c), sc(s) {}
 
     void drain(const std::string& origin) {
@@ -142,9 +143,15 @@ void doExecute(RunState& rs, IWorld& w, const HistOp& op, bool simulate, const s
     rs.drain(origin);
 }
 
+void checkCounters(RunState& rs, IWorld& w, size_t nbOpsDone);
+
 void runHistory(RunState& rs, IWorld& w, const std::vector<HistOp>& history, bool simulate, const std::string& origin) {
+    size_t done = 0;
     for (const HistOp& op : history) {
         if (op.op == "execute" || op.op == "top") doExecute(rs, w, op, simulate, origin);
+        done += 1;
+        // counters are observable between the stages of a staged run, where the per-operator counts are not yet symmetric
+        if (rs.countersEachCall && origin == "run" && done < history.size()) checkCounters(rs, w, done);
     }
 }
 
@@ -201,6 +208,36 @@ void setupSim(Ctx& ctx, const Scenario& sc) {
     sim.maxThreads = sc.threadsCtor;
 }
 
+
+// C18: merged counters (documented Reduce, seeded order) against the counts the tree implies for the executes done so far
+void checkCounters(RunState& rs, IWorld& w, size_t nbOpsDone) {
+    Ctx& ctx = rs.ctx;
+    const Scenario& sc = rs.sc;
+    std::vector<std::array<long, 7>> per;
+    std::array<long, 7> merged{{0, 0, 0, 0, 0, 0, 0}};
+    if (!w.counters(per, merged, sc.schedSeed ^ 0xC18 ^ nbOpsDone)) return;
+    std::vector<int> flagSeq;
+    bool grew = false;
+    int most = sc.threadsCtor, nExec = 0;
+    for (size_t i = 0; i < nbOpsDone && i < sc.history.size(); ++i) {
+        const HistOp& op = sc.history[i];
+        if (op.op != "execute") continue;
+        flagSeq.push_back(op.flags);
+        const int t = op.threads > 0 ? op.threads : sc.threadsExec;
+        if (nExec > 0 && t > most) grew = true;     // new per-thread kernels were then created as copies of a used one (K1)
+        if (t > most) most = t;
+        ++nExec;
+    }
+    RefValues ref = refEvaluate(ctx, w.view(), flagSeq);
+    static const char* names[7] = {"P2M", "M2M", "M2L", "L2L", "L2P", "P2P", "P2PInner"};
+    for (int k = 0; k < 7; ++k)
+        if (merged[size_t(k)] != ref.counts[size_t(k)])
+            ctx.addViolation("counter", std::string(names[k]) + (grew && sc.isTaskBased() && merged[size_t(k)] > ref.counts[size_t(k)] ? "@threads-grew-overcount" : ""),
+                             std::string("merged ") + names[k] + " counter is " + std::to_string(merged[size_t(k)]) + " but the tree implies " + std::to_string(ref.counts[size_t(k)])
+                             + " after " + std::to_string(flagSeq.size()) + " execute call(s) (" + std::to_string(per.size()) + " kernel copies)");
+    rs.drain("run");
+}
+
 // ---------------------------------------------------------------------------------------------
 // C02 / C03 / C09 / C15 / C18: run the history with the scenario's executor under the sampled schedule and with the
 // sequential twin; compare.
@@ -242,7 +279,9 @@ void recipeExec(RunState& rs) {
         ctx.kernelWorkers.clear();
         rs.kernelIndexWorkers.clear();
         world->makeAlgo();
+        rs.countersEachCall = counter;
         runHistory(rs, *world, sc.history, sc.isTaskBased(), "run");
+        rs.countersEachCall = false;
         setStage("compare");
         if (sc.kernel == "rot" || sc.kernel == "unif")
             compareViewsTol(ctx, world->view(), twin->view(), 1e-9, "value", "task-based executor vs sequential executor (floating-point kernel)");
@@ -259,32 +298,7 @@ void recipeExec(RunState& rs) {
             rs.drain("run");
         }
         checkKernelObjects(rs, *world, "run");
-        if (counter) {
-            std::vector<std::array<long, 7>> per;
-            std::array<long, 7> merged{{0, 0, 0, 0, 0, 0, 0}};
-            if (world->counters(per, merged, sc.schedSeed ^ 0xC18)) {
-                std::vector<int> flagSeq;
-                for (const HistOp& op : sc.history) if (op.op == "execute") flagSeq.push_back(op.flags);
-                // the reference needs the weight layout only for values; counts are layout independent
-                RefValues ref = refEvaluate(ctx, world->view(), flagSeq);
-                static const char* names[7] = {"P2M", "M2M", "M2L", "L2L", "L2P", "P2P", "P2PInner"};
-                // did the thread count grow after the first execute?  (new per-thread kernels are then copies of a used one)
-                bool grew = false;
-                {
-                    int most = sc.threadsCtor, nExec = 0;
-                    for (const HistOp& op : sc.history) if (op.op == "execute") {
-                        const int t = op.threads > 0 ? op.threads : sc.threadsExec;
-                        if (nExec > 0 && t > most) grew = true;
-                        if (t > most) most = t;
-                        ++nExec;
-                    }
-                }
-                for (int k = 0; k < 7; ++k)
-                    if (merged[size_t(k)] != ref.counts[size_t(k)])
-                        ctx.addViolation("counter", std::string(names[k]) + (grew && sc.isTaskBased() && merged[size_t(k)] > ref.counts[size_t(k)] ? "@threads-grew-overcount" : ""), std::string("merged ") + names[k] + " counter is " + std::to_string(merged[size_t(k)]) + " but the tree implies " + std::to_string(ref.counts[size_t(k)]) + " (" + std::to_string(per.size()) + " kernel copies)");
-                rs.drain("run");
-            }
-        }
+        if (counter) checkCounters(rs, *world, sc.history.size());
     }
     setStage("teardown");
     if (world) { world->destroyAlgo(); world->destroyTree(); }
